@@ -88,6 +88,12 @@ def fmt(t):
         return "(%s %s)" % (t[1], fmt(t[2]))
     if k == "fresh":
         return "<%s>" % t[1]
+    if k == "get":
+        return "%s[%s]" % (fmt(t[1]), fmt(t[2]))
+    if k == "elem":
+        return "%s[*]" % fmt(t[1])
+    if k == "copyof":
+        return "copy(%s)" % fmt(t[1])
     if k == "newlist":
         return "[]#%d" % t[1]
     if k == "newdict":
@@ -138,6 +144,32 @@ def fmt_atom(a):
 # ------------------------------------------------------------ boolean forms
 # A condition is a tree: ('atom', atom) | ('not', c) | ('and', [c]) |
 # ('or', [c]) | ('lit', bool) | ('ord3', atom, set-of-allowed)
+
+def _is_message_term(t):
+    """A string built from literal text (a message), as opposed to a value
+    handed to the exception (a source text, a name)."""
+    if t[0] == "const":
+        return isinstance(t[1], str)
+    if t[0] == "fstr":
+        return any(isinstance(x, str) and x.strip() for x in t[1])
+    if t[0] == "binop" and t[1] in ("Add", "Mod"):
+        return _is_message_term(t[2]) or (t[1] == "Add"
+                                          and _is_message_term(t[3]))
+    if t[0] == "call" and t[1][0] == "attr" and t[1][2] in ("format", "join"):
+        return _is_message_term(t[1][1])
+    return False
+
+
+def none_or_truthy(t):
+    """Values that are either None or truthy: regex match objects."""
+    if t[0] == "call":
+        f = t[1]
+        name = f[2] if f[0] == "attr" else (f[1] if f[0] == "global" else "")
+        name = name.split(".")[-1]
+        return name in ("match", "search", "fullmatch") or name.endswith(
+            "_match")
+    return False
+
 
 def c_not(c):
     if c[0] == "lit":
@@ -220,7 +252,9 @@ class Interp:
                     "isabstract", "issection", "ismulti", "allowUnnamed"}
     PURE_FUNCS = {"len", "str", "repr", "int", "float", "isinstance", "list",
                   "tuple", "dict", "getattr", "hasattr", "sorted", "range",
-                  "bool", "callable", "min", "max", "iter", "type"}
+                  "bool", "callable", "min", "max", "iter", "type",
+                  "reversed", "enumerate", "zip", "set", "frozenset", "any",
+                  "all", "sum", "abs", "ord", "chr", "id", "hash"}
 
     def __init__(self, fi, program, inline=None, loop_policy=None,
                  noreturn=None, assume=None, max_inline=3, bind=None,
@@ -336,6 +370,10 @@ class Interp:
     def _consistent(self, atom, value):
         val = self.path.valuation
         k = atom[0]
+        if k in ("truthy", "isnone") and none_or_truthy(atom[1]):
+            other = ("isnone" if k == "truthy" else "truthy", atom[1])
+            if other in val and val[other] == value:
+                return False
         if k == "eq":
             t, c = atom[1], atom[2]
             if value:
@@ -423,9 +461,30 @@ class Interp:
         t = self.eval(node, env)
         return self.term_truth(t)
 
+    def _prefix_suffix_atom(self, t):
+        """x.startswith(c) / x.endswith(c) with a constant c and no position
+        is the same observation as x[:n] == c / x[-n:] == c."""
+        if t[0] == "call" and t[1][0] == "attr" and t[1][2] in (
+                "startswith", "endswith") and len(t[2]) == 1 and not t[3] \
+                and is_const(t[2][0]) and isinstance(t[2][0][1], str) \
+                and t[2][0][1]:
+            c = t[2][0][1]
+            if t[1][2] == "startswith":
+                return ("eq", ("slice", t[1][1], None, const(len(c))),
+                        const(c))
+            return ("eq", ("slice", t[1][1], const(-len(c)), None), const(c))
+        return None
+
     def term_truth(self, t):
+        a = self._prefix_suffix_atom(t) if t[0] == "call" else None
+        if a is not None:
+            return self.decide(a)
         if t[0] == "const":
             return bool(t[1])
+        if t[0] == "get":
+            if not self.decide(("contains", t[2], t[1])):
+                return False
+            return self.decide(("truthy", ("index", t[1], t[2])))
         if t[0] == "bool":
             return self.decide(t[1])
         if t[0] in ("tuple", "list", "dict"):
@@ -462,6 +521,25 @@ class Interp:
             else:
                 v = self.decide(("contains", l, r))
             return v if isinstance(op, ast.In) else not v
+        # s.find(c) compared with 0 / -1 is a containment test
+        for a, b, flip in ((l, r, False), (r, l, True)):
+            if a[0] == "call" and a[1][0] == "attr" and a[1][2] == "find" \
+                    and len(a[2]) == 1 and is_const(b) and b[1] in (0, -1):
+                inside = self.decide(("contains", a[2][0], a[1][1]))
+                o = type(op)
+                if flip:
+                    o = {ast.Lt: ast.Gt, ast.LtE: ast.GtE, ast.Gt: ast.Lt,
+                         ast.GtE: ast.LtE}[o]
+                if b[1] == 0:
+                    if o is ast.GtE:
+                        return inside
+                    if o is ast.Lt:
+                        return not inside
+                else:
+                    if o is ast.Gt:
+                        return inside
+                    if o is ast.LtE:
+                        return not inside
         # ordering
         if is_const(l) and is_const(r):
             try:
@@ -509,6 +587,9 @@ class Interp:
     def is_none(self, t):
         if is_const(t):
             return t[1] is None
+        if t[0] == "get":
+            # assumption: the mapping stores no None values
+            return not self.decide(("contains", t[2], t[1]))
         if t[0] in ("tuple", "list", "dict", "bool", "closure", "fstr",
                     "newlist", "newdict"):
             return False
@@ -565,6 +646,8 @@ class Interp:
                 hi = self.eval_int(sl.upper, env) if sl.upper else None
                 if lo == const(0):
                     lo = None
+                if lo is None and hi is None:
+                    return ("copyof", base)
                 return ("slice", base, lo, hi)
             idx = self.eval(sl, env)
             if is_const(idx) and isinstance(idx[1], int) \
@@ -647,11 +730,11 @@ class Interp:
         gens = []
         for g in node.generators:
             it = self.eval(g.iter, env2)
-            el = self.fresh("elem")
+            el = ("elem", it)
             self.assign(g.target, el, env2, None)
             gens.append(it)
-            if g.ifs:
-                raise AnalysisError("comprehension filter unsupported")
+            for cond in g.ifs:
+                gens.append(self._cond_term(cond, env2))
         if isinstance(node, ast.DictComp):
             body = ("tuple", (self.eval(node.key, env2),
                               self.eval(node.value, env2)))
@@ -659,6 +742,20 @@ class Interp:
             body = self.eval(node.elt, env2)
         return ("call", ("global", "<comprehension>"),
                 (body,) + tuple(gens), ())
+
+    def _cond_term(self, node, env):
+        """A condition as an undecided term (used for comprehension filters,
+        which select elements rather than paths)."""
+        if isinstance(node, ast.Compare) and len(node.ops) == 1:
+            return ("binop", type(node.ops[0]).__name__,
+                    self.eval(node.left, env),
+                    self.eval(node.comparators[0], env))
+        if isinstance(node, ast.UnaryOp) and isinstance(node.op, ast.Not):
+            return ("unop", "Not", self._cond_term(node.operand, env))
+        if isinstance(node, ast.BoolOp):
+            return ("call", ("global", "<%s>" % type(node.op).__name__),
+                    tuple(self._cond_term(v, env) for v in node.values), ())
+        return self.eval(node, env)
 
     def eval_int(self, node, env):
         return self.eval(node, env)
@@ -693,6 +790,33 @@ class Interp:
                                     node)
         ft = self.eval(f, env)
         fi = self.fstack[-1]
+        if ft == ("global", "builtins.bool") and len(args) == 1 and not kws:
+            return const(self.term_truth(args[0]))
+        # every shallow-copy idiom is the same operation
+        if len(args) == 1 and not kws and ft in (
+                ("global", "builtins.list"), ("global", "builtins.dict"),
+                ("global", "copy.copy")) and args[0][0] not in (
+                    "tuple", "list", "dict", "const"):
+            return ("copyof", args[0])
+        if ft[0] == "attr" and ft[2] == "copy" and not args and not kws:
+            return ("copyof", ft[1])
+        if ft[0] == "attr" and ft[2] == "get" and len(args) == 1 and not kws \
+                and ft[1][0] not in ("const",):
+            # d.get(k): the value d[k], or None when k is not in d
+            return ("get", ft[1], args[0])
+        if ft[0] == "attr" and ft[2] == "close" and not args and not kws:
+            self.path.effects.append(("close", ft[1], node))
+            return const(None)
+        if ft[0] == "attr" and ft[2] in ("reverse", "sort") and not args \
+                and not kws and isinstance(f, ast.Attribute) \
+                and isinstance(f.value, ast.Name) and f.value.id in env \
+                and env[f.value.id][0] == "call":
+            # in-place reordering of a local sequence == rebinding it to the
+            # reordered copy
+            fn = "builtins.reversed" if ft[2] == "reverse" else \
+                "builtins.sorted"
+            env[f.value.id] = ("call", ("global", fn), (env[f.value.id],), ())
+            return const(None)
         # no-return summaries: a call all of whose resolved callees always
         # raise is a raise
         callees = self.P.resolve_call(fi, node) if self.depth == 0 or True \
@@ -719,7 +843,8 @@ class Interp:
                 if c.how == "ctor":
                     return recv
                 return r
-        if ft[0] == "global" and args and self._is_exception_class(ft[1]):
+        if ft[0] == "global" and args and self._is_exception_class(ft[1]) \
+                and _is_message_term(args[0]):
             # the wording of an error message is not behaviour we compare
             args = (const("<message>"),) + args[1:]
         t = ("call", ft, args, kws)
@@ -862,6 +987,10 @@ class Interp:
             if isinstance(e, ast.Call):
                 args = tuple(self.eval(a, env) for a in e.args)
                 cls = self._exc_name(e.func, env)
+                if args and self._is_exception_class(cls) \
+                        and _is_message_term(args[0]):
+                    # the wording of the message is not compared
+                    args = (const("<message>"),) + args[1:]
                 self.path.effects.append(("raise", cls, args, st))
                 raise _Raise(cls, args, st)
             t = self.eval(e, env)
@@ -894,11 +1023,20 @@ class Interp:
         if isinstance(st, ast.Try):
             return self._try(st, env)
         if isinstance(st, ast.With):
+            opened = []
             for it in st.items:
                 v = self.eval(it.context_expr, env)
+                opened.append(v)
                 if it.optional_vars is not None:
                     self.assign(it.optional_vars, v, env, st)
-            self._block(st.body, env)
+            try:
+                self._block(st.body, env)
+            except (_Return, _Raise, _Break, _Continue):
+                for v in reversed(opened):
+                    self.path.effects.append(("close", v, st))
+                raise
+            for v in reversed(opened):
+                self.path.effects.append(("close", v, st))
             return
         if isinstance(st, ast.Delete):
             for t in st.targets:
@@ -957,7 +1095,9 @@ class Interp:
             if not broke:
                 self._block(st.orelse, env)
             return
-        el = ("index", it, self.fresh("i"))
+        # one representative element of the iterated sequence (the same
+        # representative for every loop over the same sequence)
+        el = ("elem", it)
         self.assign(st.target, el, env, st)
         self.path.effects.append(("loop-enter", st.lineno, it, st))
         try:
@@ -1004,6 +1144,8 @@ class Interp:
                     self._block(st.body, env)
                 self._block(st.orelse, env)
             except _Raise as r:
+                if not st.handlers:
+                    raise
                 handled = False
                 for h in st.handlers:
                     if self._handler_matches(h, r):
@@ -1019,8 +1161,10 @@ class Interp:
                         break
                 if not handled:
                     raise
-        finally:
-            pass
+        except (_Return, _Raise, _Break, _Continue):
+            # the finally clause runs on every way out
+            self._block(st.finalbody, env)
+            raise
         self._block(st.finalbody, env)
 
     def _handler_names(self, h):
